@@ -2,6 +2,7 @@ package mon
 
 import (
 	"fmt"
+	"sync"
 
 	"verif/internal/xdoc"
 	"verif/internal/xgen"
@@ -18,6 +19,7 @@ func init() {
 		ID:    "C11",
 		Level: "exploration",
 		Rule: "directed identity search: for every pair of distinct nodes (elements, attributes, text, comments) of each hostile-name document (names a, a-1, a-1-1, a-1-2, b1, a.b, a1; repeated names and values; same text at several depths) and of wide documents whose same-named siblings have two-digit positions on several levels the union of the two absolute paths addressing exactly those nodes must deliver 2 nodes; " +
+			"the same pair search and a list of identity-sensitive expressions (ancestor steps, unions, positional access) on a document with 300 (thorough: also 66000) same-named siblings, 300 attributes on one element and a chain of 300 nested elements - positions that do not fit a byte (or a 16-bit word); " +
 			"plus seeded random unions of two or three predicate-free paths of 1-3 steps over all axes (overlapping and disjoint operands, attributes/text/comments, nested unions, the sequence form p/(a, b)). Non-trivial: both operands non-empty; distinct by (expression text, document, context).",
 		Assume:        []string{"reference evaluator internal/xref; node identity in the harness is pointer identity"},
 		MinNontrivial: tierN(6000, 80000),
@@ -25,6 +27,7 @@ func init() {
 		Families: []Family{
 			witnessFamily("C11"),
 			{Name: "pairs", N: tierN(240, 6000), Run: c11Pairs},
+			{Name: "big", N: tierN(40, 120), Run: c11Big},
 			{Name: "rand", N: tierN(150000, 8000000), Run: c11Random},
 		},
 	})
@@ -217,5 +220,129 @@ func c11Random(c *Case) {
 	}
 	c.SampleEvery(4001, func() interface{} {
 		return map[string]interface{}{"family": "rand", "expr": src, "ctx": ctx.Label(), "doc": d.XML(), "union": xdoc.Labels(want)}
+	})
+}
+
+var (
+	bigMu   sync.Mutex
+	bigDocs = map[int]*xdoc.Doc{}
+)
+
+func bigDoc(fan int) *xdoc.Doc {
+	bigMu.Lock()
+	defer bigMu.Unlock()
+	if d, ok := bigDocs[fan]; ok {
+		return d
+	}
+	d := xgen.BigTree(fan)
+	bigDocs[fan] = d
+	return d
+}
+
+var c11BigExprs = []string{
+	"//sub/ancestor::item", "//sub/..", "/r/list/item[257]", "count(/r/list/item)", "//item[last()]", "/r/attrs/@*", "count(/r/attrs/@*)", "/r/attrs/@a257 | /r/attrs/@a1",
+	"//n[not(n)]/ancestor::n", "count(//n)", "(//item)[300]", "/r/list/item[position() > 255][1]", "//item[sub][3]", "//item[sub]/sub[1] | //item[sub]/sub[2]",
+	"/r/list/item[1] | /r/list/item[257]", "/r/list/item | /r/list/item[position() > 250]", "count(/r/list/item[1]/following-sibling::item)",
+	"//text()[. = 'bottom']/ancestor::*", "count(//text()[. = 'bottom']/ancestor::n)", "//n[count(ancestor::n) = 256]", "/r/list/node()[300] | /r/list/node()[44]", "count(//item/sub/ancestor::*)",
+	"//item[position() = 256 or position() = 257 or position() = 1]", "count(/r/deep//n[not(n)]/ancestor-or-self::n)",
+}
+
+// c11Big: node pairs whose sibling positions differ by 256 / 65536 (and neighbours), and identity-sensitive
+// expressions, on documents with very long sibling lists, attribute lists and ancestor chains.
+func c11Big(c *Case) {
+	fan := 300
+	if c.Tier == "thorough" && c.Index%4 == 3 {
+		fan = 66000
+	}
+	d := bigDoc(fan)
+	g := c.G()
+	list := d.Root.Children[0].Children[0]
+	attrs := d.Root.Children[0].Children[1]
+	var items []*xdoc.Node
+	for _, n := range list.Children {
+		if n.Kind == xdoc.Element {
+			items = append(items, n)
+		}
+	}
+	check := func(n1, n2 *xdoc.Node) bool {
+		e := xref.Bin{Op: "|", L: addrPath(n1), R: addrPath(n2)}
+		src := xref.Render(e)
+		ce := c.compile(src, func() map[string]interface{} { return map[string]interface{}{"doc": fmt.Sprintf("BigTree(%d)", fan)} })
+		if ce == nil {
+			return false
+		}
+		got := c.RunSelect(ce, d.Root)
+		want := xref.SortUniq(xref.NodeSet{n1, n2})
+		gs, dup := AsSet(got.Nodes)
+		if got.Aborted() || dup || !SameNodes(gs, want) {
+			c.Violation("TWO-NODES-TREATED-AS-ONE", map[string]interface{}{"doc": fmt.Sprintf("xgen.BigTree(%d): /r/list with %d item children, /r/attrs with %d attributes, /r/deep with %d nested n", fan, fan, fan, fan),
+				"expr": src, "expected": xdoc.Labels(want), "observed_sequence": xdoc.Labels(got.Nodes), "abort": fmt.Sprint(got.Panic.String(), got.Budget)})
+			return false
+		}
+		c.Nontrivial(fmt.Sprintf("big|%d|%s", fan, src))
+		return true
+	}
+	for k := 0; k < 12; k++ {
+		i := g.Intn(len(items))
+		for _, delta := range []int{256, 512, 255, 257, 65536, 65535, 1} {
+			j := i + delta
+			if j >= len(items) {
+				j = i - delta
+			}
+			if j < 0 || j >= len(items) || j == i {
+				continue
+			}
+			if !check(items[i], items[j]) {
+				return
+			}
+			// their children with equal local paths
+			if len(items[i].Children) > 0 && len(items[j].Children) > 0 && !check(items[i].Children[0], items[j].Children[0]) {
+				return
+			}
+		}
+		a := g.Intn(len(attrs.Attrs))
+		if b := a + 256; b < len(attrs.Attrs) && !check(attrs.Attrs[a], attrs.Attrs[b]) {
+			return
+		}
+	}
+	// the chain of nested elements: depth i and i+256
+	chain := []*xdoc.Node{}
+	for n := d.Root.Children[0].Children[2]; len(n.Children) > 0 && n.Children[0].Kind == xdoc.Element; n = n.Children[0] {
+		chain = append(chain, n.Children[0])
+		if len(chain) > 600 {
+			break
+		}
+	}
+	if len(chain) > 260 && !check(chain[g.Intn(len(chain)-256)], chain[len(chain)-1]) {
+		return
+	}
+	if fan > 1000 {
+		return // the expression list is evaluated on the 300-fan document only (cost)
+	}
+	src := c11BigExprs[c.Index%len(c11BigExprs)]
+	ast := mustParse(src)
+	want, oof := xref.SafeEval(ast, xref.NewCtx(d.Root))
+	if oof != "" {
+		panic("C11 big: reference: " + oof)
+	}
+	ce := c.compile(src, func() map[string]interface{} { return map[string]interface{}{} })
+	if ce == nil {
+		return
+	}
+	got := c.RunEvaluate(ce, d.Root)
+	if !sameValue(got, want) {
+		exp := fmtValue(want)
+		if len(exp) > 600 {
+			exp = exp[:600] + "..."
+		}
+		obs := got.String()
+		if len(obs) > 600 {
+			obs = obs[:600] + "..."
+		}
+		c.Violation("BIG-DOCUMENT", map[string]interface{}{"doc": fmt.Sprintf("xgen.BigTree(%d)", fan), "expr": src, "expected": exp, "observed": obs})
+		return
+	}
+	c.SampleEvery(7, func() interface{} {
+		return map[string]interface{}{"family": "big", "fan": fan, "expr": src, "pairs_with_position_delta": []int{256, 512, 255, 257, 65536}}
 	})
 }
